@@ -120,7 +120,7 @@ func runC15Case(t *testing.T, c c15Case) CaseOut {
 	var out CaseOut
 	out.Nontrivial = true
 	c15Keys()
-	synctest.Test(t, func(t *testing.T) {
+	bubble(t, func(t *testing.T) {
 		e := newCtlEnv("n1", []workTypeSpec{{"signed", "hold", true}, {"plain", "hold", false}})
 		defer e.close()
 		keyFile := filepath.Join(e.dir, "verify.pem")
